@@ -25,6 +25,6 @@ package internal
 // Sequence numbers define the global lock order: each new mutex draws its number with one atomic
 // add on the shared counter, so no two mutexes - however concurrently created - share a number.
 //@ func NewSortableMutex
-//@   property C10
+//@   property C05 C10
 //@   flag nosafety
 //@   mustcall Add@1 when @sequence-drawn-atomically true
